@@ -16,6 +16,8 @@ func init() {
 	})
 }
 
+var modInputSummary map[*types.Func]bool
+
 func runC08(c *Ctx) {
 	c.Rule("R08a", "every store to Scanner.pos / Scanner.total / Scanner.input has one of the shapes that preserve total == len(src)-len(input)+pos (addPos, pick save/restore, input=input[pos:]+pos=0, skipSpaces, init)", 8)
 	c.Rule("R08b", "nested scanners: a sub-Scanner is initialised with s.input[s.pos:] and s.addPos(sub.total) is passed on every nil-error return path", 3)
@@ -77,6 +79,36 @@ func runC08(c *Ctx) {
 		name := fi.Decl.Name.Name
 		recvIsScanner := recvName(fi.Decl) == "Scanner"
 		ok, why := false, "stores to the scanner cursors are not allowed in this function"
+		// first: prove the cursor invariant symbolically on every path (E-lin); shapes are only the fallback
+		if recvIsScanner {
+			if modInputSummary == nil {
+				modInputSummary, _ = scannerCursorSummaries(c)
+			}
+			v := proveCursorInvariant(c, fi, modInputSummary)
+			switch {
+			case v.proved:
+				for _, st := range stores {
+					var pos token.Pos
+					if st.stmt != nil {
+						pos = st.stmt.Pos()
+					}
+					c.Check("R08a", fi.Name+"|store Scanner."+st.field, pos, true, "")
+				}
+				c.Note("R08a %s: cursor invariant proved on %d path segments (E-lin)", fi.Name, v.paths)
+				return
+			case v.refuted != "":
+				for _, st := range stores {
+					var pos token.Pos
+					if st.stmt != nil {
+						pos = st.stmt.Pos()
+					}
+					c.Check("R08a", fi.Name+"|store Scanner."+st.field, pos, false, "%s breaks the cursor invariant (s.input = s.src[a:] and s.total == a + s.pos) %s", fi.Name, v.refuted)
+				}
+				return
+			default:
+				c.Note("R08a %s: E-lin undecided (%s); falling back to the closed set of store shapes", fi.Name, v.undecided)
+			}
+		}
 		if recvIsScanner {
 			switch name {
 			case "addPos":
@@ -204,13 +236,45 @@ func runC08(c *Ctx) {
 					if be, ok := kv.Value.(*ast.BinaryExpr); ok && be.Op == token.SUB && isField(finfo, be.X, pMigrate, "Scanner", "total") {
 						if a := lenArg(finfo, be.Y); a != nil {
 							if id, ok := a.(*ast.Ident); ok {
-								// the text parameter, which is also the Text field
-								for _, e2 := range cl.Elts {
-									if kv2, ok := e2.(*ast.KeyValueExpr); ok {
-										if k2, ok := kv2.Key.(*ast.Ident); ok && k2.Name == "Text" {
-											if v2, ok := kv2.Value.(*ast.Ident); ok && finfo.ObjectOf(v2) == finfo.ObjectOf(id) {
-												okShape = true
+								// the scanned text handed to emit (its string parameter), not yet trimmed:
+								// no assignment to it can reach this literal
+								obj := finfo.ObjectOf(id)
+								isParam := false
+								for _, fld := range fi.Decl.Type.Params.List {
+									for _, nm := range fld.Names {
+										if finfo.ObjectOf(nm) == obj {
+											isParam = true
+										}
+									}
+								}
+								if isParam {
+									ef := newFlow(finfo, fi.Decl.Body)
+									assignsText := func(n ast.Node) bool {
+										as, ok := n.(*ast.AssignStmt)
+										if !ok {
+											return false
+										}
+										for _, l := range as.Lhs {
+											if lid, ok := l.(*ast.Ident); ok && finfo.ObjectOf(lid) == obj {
+												return true
 											}
+										}
+										return false
+									}
+									holdsLit := func(n ast.Node) bool {
+										hit := false
+										ast.Inspect(n, func(k ast.Node) bool {
+											if k == ast.Node(cl) {
+												hit = true
+											}
+											return !hit
+										})
+										return hit
+									}
+									okShape = true
+									for _, ap := range ef.find(assignsText) {
+										if _, reached := ef.reach([]point{after(ap)}, nil, holdsLit, false); reached {
+											okShape = false
 										}
 									}
 								}
